@@ -30,7 +30,7 @@ import (
 const (
 	bcName        = "xuper"
 	numValidators = 4
-	maxLabels     = 64
+	maxLabels     = 2048 // the sequential histories use <= 16 labels; the concurrent-duplicate worlds grow one label per round
 )
 
 // ---- identities and signatures ----------------------------------------------------------------
